@@ -165,7 +165,7 @@ func TestC04(t *testing.T) {
 		if st := stateOf(live, key); st != sc.post {
 			r.Violation("success-wrong-state", si, fmt.Sprintf("scenario %s: the call reported success but the file holds %s, want %s", sc.Name, st, sc.post), map[string]any{"trace": trace})
 		}
-		for _, f := range crashenum.Faults(res.Events, r.Thorough()) {
+		for _, f := range crashenum.Faults(res.Events, true) {
 			jobs = append(jobs, job{sc, f, res.Events[f.At-1]})
 		}
 		os.RemoveAll(sdir)
